@@ -1108,7 +1108,7 @@ Lemma forest63_tree n t : 0 <= n < 2 ^ 63 -> In t (forest n) ->
 Proof.
   intros Hn HI. unfold forest in HI.
   assert (F : forest_from 64 n 0 0 = forest_from 63 n 0 0).
-  { apply (forest_from_skip 1 63). rewrite tleafs_63. lia. }
+  { replace 64%nat with (1 + 63)%nat by reflexivity. apply forest_from_skip. rewrite tleafs_63. lia. }
   rewrite F in HI.
   destruct (forest_from_In 63 n 0 0 t ltac:(rewrite tleafs_63; lia) HI) as (A & B & C & D & Ed).
   rewrite tsize_63 in D.
@@ -1116,7 +1116,8 @@ Proof.
   intros p a b c Hp Dp.
   destruct (rll_and_height_desc p ltac:(pose proof (tsize_pos (pt_height t)); lia)) as (a' & b' & c' & D' & L).
   assert (S1 : desc 64 0 0 p 0 = desc 63 0 0 p 0).
-  { apply (desc_left_spine 1 63). rewrite tsize_63. pose proof (tsize_pos (pt_height t)). lia. }
+  { replace 64%nat with (1 + 63)%nat by reflexivity. apply desc_left_spine. rewrite tsize_63.
+    pose proof (tsize_pos (pt_height t)). lia. }
   rewrite S1 in D'. rewrite (Ed p 0 Hp) in D'. rewrite Dp in D'. injection D' as <- <- <-. exact L.
 Qed.
 
